@@ -49,7 +49,7 @@ try:
     res["builds"] = rc == 0 or o[-400:]
     rc1, o1 = sh(demo)
     res["demo_with_change"] = "fail (as required)" if rc1 != 0 else "PASSES (not a demonstration)"
-    pkgs = sorted({"./" + os.path.dirname(p) + "/..." for p in patched})
+    pkgs = sorted({"./" + os.path.dirname(p) for p in patched})
     tests = {}
     for pk in pkgs:
         skip = "TestErrMissingSignatureRecreateDB|TestSeed|TestIsWritable|TestServiceNewAddresses|TestPexAddPeers"
